@@ -55,6 +55,7 @@ class ArrayProgram:
         self.alias = {}
         self.views = set()
         self.mutations = []  # source text of every statement that updates `self`
+        self.names = []      # every Lean definition of this program, in order (for the generated unfold list)
 
     # ---- the caller's spectrum
     def self_term(self, which, idx):
@@ -104,6 +105,7 @@ class ArrayProgram:
         self.defs.append('/-- %s: `%s`  — updates the spectrum the method was called on -/'
                          % (T.srcline(stmt, self.path), _one_line(ast.get_source_segment(self.src, stmt))))
         self.defs.append('def %s %s : %s := %s' % (d, PARAMS, {'data': 'Rat', 'mask': 'Bool'}[which], term))
+        self.names.append(d)
         self.selfv[which] = d
         self.mutations.append(_one_line(ast.get_source_segment(self.src, stmt)))
 
@@ -210,6 +212,7 @@ class ArrayProgram:
         ty = {'R': 'Rat', 'B': 'Bool'}[kind]
         self.defs.append('/-- %s: `%s` -/' % (T.srcline(stmt, self.path), _one_line(ast.get_source_segment(self.src, stmt))))
         self.defs.append('def %s %s : %s := %s' % (d, PARAMS, ty, term))
+        self.names.append(d)
         self.env[pyname] = (kind, d)
 
     def stmt(self, s):
@@ -287,6 +290,8 @@ class ArrayProgram:
         raise TranslateError('%s: statement %s' % (self.prefix, _one_line(ast.unparse(s))))
 
 
+PROGRAM_DEFS = {}      # method name -> Lean definitions of its translated program (intermediates first, end results last)
+
 def gen_method(fn, src, path, new_defaults):
     """Spectrum.fold / Spectrum.unfold"""
     name = fn.name
@@ -357,6 +362,7 @@ def gen_method(fn, src, path, new_defaults):
     allowed = {'%s.extrap_x=self.extrap_x' % target, 'return%s' % target}
     if not tail or tail[-1] != 'return%s' % target or any(t not in allowed for t in tail):
         raise TranslateError('%s: statements after the constructor: %s' % (name, tail))
+    PROGRAM_DEFS[name] = list(P.names) + ['%s_%s' % (name, e) for e in ('outData', 'outMask', 'selfDataAfter', 'selfMaskAfter')]
     return '\n'.join(out)
 
 
@@ -443,6 +449,93 @@ def _no_side_effects(what, body, store_ok, norm, calls_ok=()):
             elif isinstance(a, (ast.Delete, ast.Global, ast.Nonlocal, ast.FunctionDef, ast.Lambda, ast.NamedExpr)):
                 raise TranslateError('%s: %s' % (what, type(a).__name__))
 
+RESERVED_LOCALS = {'newdata', 'newmask', 'newpop_ids', 'extrap_x', 'outfs', 'self', 'other'}
+
+def _template_program(what, body, norm, inplace):
+    """the statements of a template that compute data and mask and check the folding status, in source order, as terms of
+    `Fold.TStmt` (Model/FoldIR.lean).  -> (lean terms, source comments, indices of the top-level statements consumed, the
+    `self.data.<op>(…)` expression statements accepted).  The two branches of `if isinstance(other, numpy.ma.masked_array)`
+    are flattened into guarded statements (the test cannot change while the template runs: `other` is never rebound)."""
+    binds = set(); prog = []; notes = []; used = set(); calls = []
+    def arg(node):
+        t = norm(node)
+        if t == 'other': return '.other'
+        if t == 'other.data': return '.otherData'
+        if isinstance(node, ast.Name) and node.id in binds: return '(.var %s)' % json.dumps(node.id)
+        raise TranslateError('%s: argument `%s` is not other / other.data / a local name bound to one of them' % (what, t))
+    def maskexpr(node):
+        t = norm(node)
+        if t == 'self.mask': return '.selfMask'
+        if t in ('numpy.ma.mask_or(self.mask,other.mask)', 'numpy.ma.mask_or(other.mask,self.mask)'): return '.maskOr'
+        raise TranslateError('%s: mask expression `%s`' % (what, t))
+    def dataop(node):
+        """`self.data.__OP__(<arg>)` -> arg term, else None"""
+        if isinstance(node, ast.Call) and norm(node.func) == 'self.data.__OP__':
+            if len(node.args) != 1 or node.keywords: raise TranslateError('%s: call %s' % (what, norm(node)))
+            return arg(node.args[0])
+        return None
+    def simple(st):
+        """one non-compound statement -> act term, or None if it is not part of the data/mask/guard program"""
+        if isinstance(st, ast.Expr) and isinstance(st.value, ast.Call):
+            f = norm(st.value.func)
+            if f == 'self._check_other_folding':
+                if len(st.value.args) != 1 or st.value.keywords: raise TranslateError('%s: %s' % (what, norm(st)))
+                return '.check %s' % arg(st.value.args[0])
+            a = dataop(st.value)
+            if a is not None:
+                if not inplace: raise TranslateError('%s: result of %s is discarded' % (what, norm(st)))
+                calls.append(norm(st.value))
+                return '.selfData %s' % a
+            return None
+        if isinstance(st, ast.Assign) and len(st.targets) == 1:
+            t = st.targets[0]; tn = norm(t)
+            if tn == 'newdata':
+                a = dataop(st.value)
+                if a is None or inplace: raise TranslateError('%s: %s' % (what, norm(st)))
+                return '.newData %s' % a
+            if tn == 'newmask':
+                if inplace: raise TranslateError('%s: %s' % (what, norm(st)))
+                return '.newMask %s' % maskexpr(st.value)
+            if tn == 'self.mask':
+                if not inplace: raise TranslateError('%s: store into self.mask' % what)
+                return '.selfMask %s' % maskexpr(st.value)
+            if isinstance(t, ast.Name) and t.id not in RESERVED_LOCALS:
+                vt = norm(st.value)
+                if vt in ('other', 'other.data') or (isinstance(st.value, ast.Name) and st.value.id in binds):
+                    a = arg(st.value); binds.add(t.id)
+                    return '.bind %s %s' % (json.dumps(t.id), a)
+            if dataop(st.value) is not None:
+                raise TranslateError('%s: %s' % (what, norm(st)))
+        return None
+    def emit(cond, st, act):
+        prog.append('{ cond := .%s, act := %s }' % (cond, act))
+        notes.append('%s`%s`' % ({'always': '', 'ifMasked': '[other is a masked_array] ', 'ifNotMasked': '[other is not a masked_array] '}[cond],
+                                 _one_line(ast.unparse(st)).replace('__OP__', '<method>')))
+    for k, st in enumerate(body):
+        if isinstance(st, ast.If) and norm(st.test) == 'isinstance(other,numpy.ma.masked_array)':
+            for cond, branch in (('ifMasked', st.body), ('ifNotMasked', st.orelse)):
+                for sub in branch:
+                    act = simple(sub)
+                    if act is None: raise TranslateError('%s: statement in the masked_array dispatch: %s' % (what, norm(sub)))
+                    emit(cond, sub, act)
+            used.add(k)
+        elif isinstance(st, ast.If) and 'isinstance(other' in norm(st.test):
+            raise TranslateError('%s: dispatch test %s' % (what, norm(st.test)))
+        else:
+            act = simple(st)
+            if act is not None:
+                emit('always', st, act); used.add(k)
+    for k, st in enumerate(body):
+        if k in used: continue
+        for a in ast.walk(st):
+            if isinstance(a, ast.Call) and norm(a.func) in ('self._check_other_folding', 'self.data.__OP__'):
+                raise TranslateError('%s: %s inside %s' % (what, norm(a), type(st).__name__))
+            if isinstance(a, (ast.Assign, ast.AugAssign)):
+                for t in (a.targets if isinstance(a, ast.Assign) else [a.target]):
+                    if norm(t) in ('newdata', 'newmask', 'self.mask', 'self.data') or norm(t).startswith(('self.mask', 'self.data')):
+                        raise TranslateError('%s: store into %s inside %s' % (what, norm(t), type(st).__name__))
+    return prog, notes, used, calls
+
 def gen_operators(cls, src, path, new_defaults):
     """the two `for method in [...]: exec(template % {'method': method})` loops, and _check_other_folding"""
     loops = []
@@ -468,22 +561,21 @@ def gen_operators(cls, src, path, new_defaults):
     out.append('def ndarrayLacks : List String := %s' % lst(sorted(PY3_NDARRAY_MISSING)))
 
     def norm(s): return ast.unparse(s).replace(' ', '')
+    def program_def(name, what, prog, notes, node):
+        doc = '/-- %s, %s: the statements that check the folding status and compute data and mask, in source order\n' % (T.srcline(node, path), what)
+        doc += ''.join('      %d. %s\n' % (k + 1, t.replace('-/', '- /')) for k, t in enumerate(notes)) + '-/'
+        return [doc, 'def %s : List DadiVerif.Fold.TStmt := [%s]' % (name, ',\n    '.join(prog))]
     # ---- binary template
     fn = ast.parse(bin_t % {'method': '__OP__'}).body[0]
+    if [a.arg for a in fn.args.args] != ['self', 'other'] or fn.args.defaults or fn.args.vararg or fn.args.kwarg:
+        raise TranslateError('binary template: signature')
     b = fn.body
-    if norm(b[0]) != 'self._check_other_folding(other)':
-        raise TranslateError('binary template: does not start with _check_other_folding')
-    iff = b[1]
-    if not (isinstance(iff, ast.If) and norm(iff.test) == 'isinstance(other,numpy.ma.masked_array)'):
-        raise TranslateError('binary template: masked_array dispatch')
-    if [norm(s) for s in iff.body] != ['newdata=self.data.__OP__(other.data)', 'newmask=numpy.ma.mask_or(self.mask,other.mask)']:
-        raise TranslateError('binary template: masked branch %s' % [norm(s) for s in iff.body])
-    if [norm(s) for s in iff.orelse] != ['newdata=self.data.__OP__(other)', 'newmask=self.mask']:
-        raise TranslateError('binary template: plain branch %s' % [norm(s) for s in iff.orelse])
+    prog, notes, used, _ = _template_program('binary template', b, norm, inplace=False)
+    rest = [(k, s) for k, s in enumerate(b) if k not in used]
     # pop_ids rule
-    if norm(b[2]) != 'newpop_ids=self.pop_ids':
+    if len(rest) < 4 or norm(rest[0][1]) != 'newpop_ids=self.pop_ids':
         raise TranslateError('binary template: newpop_ids initialisation')
-    pi = b[3]
+    pi = rest[1][1]
     if not (isinstance(pi, ast.If) and norm(pi.test) == "hasattr(other,'pop_ids')" and not pi.orelse and len(pi.body) == 1):
         raise TranslateError('binary template: pop_ids rule')
     def chain(node):
@@ -501,16 +593,18 @@ def gen_operators(cls, src, path, new_defaults):
         elif bb.startswith('logger.warning('): val = 'selfIds'      # value stays at its initialisation
         else: raise TranslateError('binary template: pop_ids branch %s' % bb)
         if len(node.orelse) > 1: raise TranslateError('binary template: pop_ids else')
-        rest = chain(node.orelse[0]) if node.orelse else 'selfIds'
-        return '(if %s then %s else %s)' % (conds[t], val, rest)
+        rest_ = chain(node.orelse[0]) if node.orelse else 'selfIds'
+        return '(if %s then %s else %s)' % (conds[t], val, rest_)
     out.append('/-- binary template, pop_ids of the result when `other` has a `pop_ids` attribute (otherwise self.pop_ids) -/')
     out.append('def binopPopIds (selfIds otherIds : Option (List String)) : Option (List String) := %s' % chain(pi.body[0]))
     # constructor call
-    ctor = None
-    for s in b:
+    ctor = None; ctor_k = None
+    for k, s in rest:
         if isinstance(s, ast.Assign) and isinstance(s.value, ast.Call) and norm(s.value.func) == 'self.__class__.__new__':
-            ctor = s.value
+            if ctor is not None: raise TranslateError('binary template: two constructor calls')
+            ctor = s.value; ctor_k = k; ctor_target = norm(s.targets[0])
     if ctor is None: raise TranslateError('binary template: constructor call')
+    if any(k > ctor_k for k in used): raise TranslateError('binary template: data/mask statements after the constructor call')
     if [norm(a) for a in ctor.args] != ['self.__class__', 'newdata', 'newmask']:
         raise TranslateError('binary template: constructor positional arguments')
     kw = {k.arg: norm(k.value) for k in ctor.keywords}
@@ -529,36 +623,35 @@ def gen_operators(cls, src, path, new_defaults):
         raise TranslateError('binary template: constructor keywords %s' % sorted(kw))
     out.append('/-- binary template: the constructor copies data and mask (`copy` keyword as passed, or the default of Spectrum.__new__) -/')
     out.append('def binopCopies : Bool := %s' % (new_defaults['copy'] if cp is None else cp.lower()))
-    if norm(b[-1]) != 'returnoutfs': raise TranslateError('binary template: return')
+    if ctor_target != 'outfs' or norm(b[-1]) != 'returnoutfs': raise TranslateError('binary template: return')
     _no_side_effects('binary template', b, store_ok=lambda t: isinstance(t, ast.Name), norm=norm)
+    out += program_def('binaryProgram', 'binary template', prog, notes, bn)
     # ---- in-place template
     fn = ast.parse(inp_t % {'method': '__OP__'}).body[0]
+    if [a.arg for a in fn.args.args] != ['self', 'other'] or fn.args.defaults or fn.args.vararg or fn.args.kwarg:
+        raise TranslateError('in-place template: signature')
     b = fn.body
-    if norm(b[0]) != 'self._check_other_folding(other)':
-        raise TranslateError('in-place template: does not start with _check_other_folding')
-    iff = b[1]
-    if not (isinstance(iff, ast.If) and norm(iff.test) == 'isinstance(other,numpy.ma.masked_array)'):
-        raise TranslateError('in-place template: masked_array dispatch')
-    if [norm(s) for s in iff.body] != ['self.data.__OP__(other.data)', 'self.mask=numpy.ma.mask_or(self.mask,other.mask)']:
-        raise TranslateError('in-place template: masked branch')
-    if [norm(s) for s in iff.orelse] != ['self.data.__OP__(other)']:
-        raise TranslateError('in-place template: plain branch')
-    for s in b[2:-1]:
+    iprog, inotes, iused, icalls = _template_program('in-place template', b, norm, inplace=True)
+    for k, s in enumerate(b[:-1]):
+        if k in iused: continue
         # the remaining statements may only warn or touch extrap_x
         for a in ast.walk(s):
             if isinstance(a, (ast.Assign, ast.AugAssign)):
                 tg = a.targets[0] if isinstance(a, ast.Assign) else a.target
                 if norm(tg) != 'self.extrap_x':
                     raise TranslateError('in-place template: assignment to %s' % norm(tg))
-    if norm(b[-1]) != 'returnself': raise TranslateError('in-place template: return')
-    _no_side_effects('in-place template', b, store_ok=lambda t: norm(t) in ('self.mask', 'self.extrap_x'), norm=norm,
-                     calls_ok=('self.data.__OP__(other.data)', 'self.data.__OP__(other)'))
+            if isinstance(a, (ast.Return, ast.Raise)):
+                raise TranslateError('in-place template: %s before the end' % type(a).__name__)
+    if (len(b) - 1) in iused or norm(b[-1]) != 'returnself': raise TranslateError('in-place template: return')
+    _no_side_effects('in-place template', b, store_ok=lambda t: norm(t) in ('self.mask', 'self.extrap_x') or (isinstance(t, ast.Name) and t.id not in ('self', 'other')),
+                     norm=norm, calls_ok=tuple(icalls))
     out.append('/-- neither template contains a statement that stores into, or calls a method of, `other` (binary: nor of `self`):\n'
                '    assignments go to local names (in place: `self.mask`, `self.extrap_x`), expression statements are the folding check,\n'
                '    `self.data.<op>(…)` (in place) and logger calls -/')
     out.append('def templatesLeaveOperands : Bool := true')
-    out.append('/-- in-place template: data updated in place, `self.mask = mask_or(self.mask, other.mask)` for masked operands,\n    folded/pop_ids of self untouched, returns self -/')
+    out.append('/-- in-place template: besides the statements of `inplaceProgram` it only warns and resets `extrap_x`;\n    folded/pop_ids of self untouched, returns self -/')
     out.append('def inplaceShapeOk : Bool := true')
+    out += program_def('inplaceProgram', 'in-place template', iprog, inotes, in_)
     # ---- _check_other_folding
     cf = _strip_doc(method(cls, '_check_other_folding').body)
     if not (len(cf) == 1 and isinstance(cf[0], ast.If) and not cf[0].orelse and isinstance(cf[0].body[0], ast.Raise)):
@@ -585,6 +678,8 @@ def gen_operators(cls, src, path, new_defaults):
             return 'otherIsSpectrum'
         if isinstance(node, ast.Attribute) and norm(node) in ('self.folded', 'other.folded'):
             return {'self.folded': 'selfFolded', 'other.folded': 'otherFolded'}[norm(node)]
+        if isinstance(node, ast.Call) and norm(node.func) == 'bool' and len(node.args) == 1 and not node.keywords:
+            return trbool(node.args[0])      # truth value of a flag that is True / False in the model
         if isinstance(node, ast.Compare) and len(node.ops) == 1 and isinstance(node.ops[0], (ast.Eq, ast.NotEq)):
             return '(%s %s %s)' % (trbool(node.left), '==' if isinstance(node.ops[0], ast.Eq) else '!=', trbool(node.comparators[0]))
         raise TranslateError('_check_other_folding: condition %s' % norm(node))
@@ -592,6 +687,107 @@ def gen_operators(cls, src, path, new_defaults):
     out.append('/-- %s: raise %s if `%s` -/' % (T.srcline(cf[0], path), T.callee_name(exc.func), _one_line(ast.get_source_segment(src, test))))
     out.append('def foldingRefused (otherIsSpectrum selfFolded otherFolded : Bool) : Bool := %s' % trbool(t2))
     out.append('def foldingRefusedWhat : String := %s' % json.dumps(T.callee_name(exc.func)))
+    return '\n'.join(out)
+
+
+HOOK_ATTRS = {'folded': 'folded', 'pop_ids': 'popIds'}      # attributes of the property; `extrap_x` is parsed with the same rules and dropped
+
+def gen_hooks(cls, src, path):
+    """`__array_finalize__`, `__array_wrap__`, `_update_from`, `log`: where each takes `folded` / `pop_ids` of the array it
+    finalises from (one `Fold.AttrRule` per hook and attribute).  The order in which numpy calls these hooks for views, slices,
+    ufuncs and copies is numpy's, not dadi's: it is written down in Model/Fold.lean (`hooksOf`) and compared with the observed
+    call sequence by the harness (K)."""
+    def norm(s): return re.sub(r'\s+', '', ast.unparse(s))
+    out = []
+    def literal_rule(what, attr, v):
+        if isinstance(v, ast.Constant) and (v.value is None or v.value == 'unspecified'): return '.constNone'
+        if isinstance(v, ast.Constant) and isinstance(v.value, bool) and attr == 'folded': return '(.constBool %s)' % ('true' if v.value else 'false')
+        return None
+    def rules(what, stmts, tgt, obj, operand):
+        """stmts: the statements after the base-class call.  tgt: name of the array being finalised; obj: name of the array it
+        comes from (rules getattrDefault / ifHasattr) or None; operand: name whose attributes are copied unconditionally or None"""
+        found = {}
+        def put(attr, rule, st):
+            if attr in found: raise TranslateError('%s: attribute %s assigned twice' % (what, attr))
+            found[attr] = (rule, st)
+        for st in stmts:
+            if isinstance(st, ast.Assign) and len(st.targets) == 1 and isinstance(st.targets[0], ast.Attribute) \
+               and norm(st.targets[0].value) == tgt:
+                attr = st.targets[0].attr; v = st.value
+                if obj is not None and isinstance(v, ast.Call) and norm(v.func) == 'getattr' and len(v.args) == 3 and not v.keywords \
+                   and norm(v.args[0]) == obj and isinstance(v.args[1], ast.Constant) and v.args[1].value == attr:
+                    d = v.args[2]
+                    if not (isinstance(d, ast.Constant) and (d.value is None or d.value == 'unspecified')):
+                        raise TranslateError('%s: default of getattr(%s, %r, …) is %s' % (what, obj, attr, norm(d)))
+                    put(attr, '.getattrDefault', st); continue
+                if operand is not None and norm(v) == '%s.%s' % (operand, attr):
+                    put(attr, '.fromSelf', st); continue
+                lr = literal_rule(what, attr, v)
+                if lr is not None:
+                    put(attr, lr, st); continue
+                raise TranslateError('%s: %s' % (what, norm(st)))
+            if obj is not None and isinstance(st, ast.If) and not st.orelse and len(st.body) == 1:
+                t = st.test
+                if isinstance(t, ast.Call) and norm(t.func) == 'hasattr' and len(t.args) == 2 and norm(t.args[0]) == obj \
+                   and isinstance(t.args[1], ast.Constant):
+                    attr = t.args[1].value
+                    if norm(st.body[0]) == '%s.%s=%s.%s' % (tgt, attr, obj, attr):
+                        put(attr, '.ifHasattr', st); continue
+            raise TranslateError('%s: statement %s' % (what, _one_line(ast.unparse(st))))
+        return found
+    def emit(prefix, what, fn, found):
+        for attr, lean in HOOK_ATTRS.items():
+            if attr in found:
+                rule, st = found[attr]
+                out.append('/-- %s `%s`: `%s` -/' % (T.srcline(st, path), what, _one_line(ast.get_source_segment(src, st))))
+            else:
+                rule = '.untouched'
+                out.append('/-- %s `%s` does not assign `%s` -/' % (T.srcline(fn, path), what, attr))
+            out.append('def %s_%s : DadiVerif.Fold.AttrRule := %s' % (prefix, lean, rule))
+    # __array_finalize__(self, obj): if obj is None: return ; base call ; assignments
+    fn = method(cls, '__array_finalize__'); b = _strip_doc(fn.body)
+    if [a.arg for a in fn.args.args] != ['self', 'obj']: raise TranslateError('__array_finalize__: signature')
+    if len(b) < 2 or norm(b[0]) != 'ifobjisNone:return' or norm(b[1]) != 'numpy.ma.masked_array.__array_finalize__(self,obj)':
+        raise TranslateError('__array_finalize__: does not start with `if obj is None: return` and the base-class call')
+    emit('finalize', '__array_finalize__', fn, rules('__array_finalize__', b[2:], 'self', 'obj', None))
+    # _update_from(self, obj): base call ; assignments
+    fn = method(cls, '_update_from'); b = _strip_doc(fn.body)
+    if [a.arg for a in fn.args.args] != ['self', 'obj']: raise TranslateError('_update_from: signature')
+    if len(b) < 1 or norm(b[0]) != 'numpy.ma.masked_array._update_from(self,obj)':
+        raise TranslateError('_update_from: does not start with the base-class call')
+    emit('updateFrom', '_update_from', fn, rules('_update_from', b[1:], 'self', 'obj', None))
+    # __array_wrap__(self, obj, context=None, return_scalar=False): result = …base… ; result.a = self.a ; return result
+    fn = method(cls, '__array_wrap__'); b = _strip_doc(fn.body)
+    if [a.arg for a in fn.args.args][:2] != ['self', 'obj']: raise TranslateError('__array_wrap__: signature')
+    k = None
+    for j, st in enumerate(b):
+        if norm(st).startswith('result=numpy.ma.masked_array.__array_wrap__(self,obj'): k = j
+    if k is None or any(norm(st) != 'result=obj.view(type(self))' for st in b[:k]) or norm(b[-1]) != 'returnresult':
+        raise TranslateError('__array_wrap__: shape')
+    emit('wrap', '__array_wrap__', fn, rules('__array_wrap__', b[k + 1:-1], 'result', None, 'self'))
+    # log(self): logfs = numpy.ma.log(self) ; logfs.a = self.a ; return logfs
+    fn = method(cls, 'log'); b = _strip_doc(fn.body)
+    if [a.arg for a in fn.args.args] != ['self']: raise TranslateError('log: signature')
+    if len(b) < 2 or norm(b[0]) != 'logfs=numpy.ma.log(self)' or norm(b[-1]) != 'returnlogfs':
+        raise TranslateError('log: shape')
+    emit('log', 'log', fn, rules('log', b[1:-1], 'logfs', None, 'self'))
+    out.append('/-- `__array_finalize__` and `_update_from` call the numpy.ma base-class method before their own assignments; `__array_wrap__`\n'
+               '    and `log` assign after numpy.ma has built the result (statements present as such) -/')
+    out.append('def hooksAssignAfterBase : Bool := true')
+    return '\n'.join(out)
+
+
+def gen_unfold_macros():
+    """tactics that unfold every definition of a translated program — the proofs name only the END results (`fold_outData`, …) and
+    call these, so renaming / adding / removing an intermediate of `fold` / `unfold` does not touch any proof script"""
+    out = []
+    for name in ('fold', 'unfold'):
+        defs = PROGRAM_DEFS.get(name)
+        if not defs: raise TranslateError('%s: no program definitions recorded' % name)
+        out.append('/-- definitions of the translated `%s` program, in order -/' % name)
+        out.append('def %s_programDefs : List String := [%s]' % (name, ', '.join(json.dumps(d) for d in defs)))
+        out.append('/-- `%s_program_unfold`: rewrite with the defining equation of every definition in `%s_programDefs` -/' % (name, name))
+        out.append('macro "%s_program_unfold" : tactic => `(tactic| simp only [%s])' % (name, ', '.join(defs)))
     return '\n'.join(out)
 
 
@@ -710,12 +906,15 @@ def generate():
     nsrc, ntree, nfns = T.py_functions(npath)
     isrc = open(ipath).read(); itree = ast.parse(isrc)
     cls = class_def(tree, 'Spectrum')
-    out = [T.HEADER.replace('tools/translate.py', 'tools/gen_Fold.py'), 'namespace Gen.Fold']
+    out = [T.HEADER.replace('tools/translate.py', 'tools/gen_Fold.py').replace('import DadiVerif.Model.Prelude', 'import DadiVerif.Model.Prelude\nimport DadiVerif.Model.FoldIR'),
+           'namespace Gen.Fold']
     structural, new_defaults = gen_structural(cls, src, spath, nsrc, nfns, npath)
     out.append(structural)
     out.append(gen_method(method(cls, 'fold'), src, spath, new_defaults))
     out.append(gen_method(method(cls, 'unfold'), src, spath, new_defaults))
+    out.append(gen_unfold_macros())
     out.append(gen_operators(cls, src, spath, new_defaults))
+    out.append(gen_hooks(cls, src, spath))
     out.append(gen_misid(nsrc, nfns, npath))
     out.append(gen_autofold(isrc, itree, ipath))
     out.append('end Gen.Fold\nend DadiVerif\n')
